@@ -508,6 +508,8 @@ def _one_run(check, seed, tier, idx):
             }
             if r.get("violation") or idx < 3:
                 rec["case"] = r.get("case_explicit") or case
+                if r.get("case_explicit") is not None:
+                    rec["case_generated"] = case
             if r.get("cover"):
                 rec["cover"] = r["cover"]
             if r.get("tags"):
@@ -571,7 +573,7 @@ def run_batch(check: Check, tier: str, base_seed: int, script: str) -> int:
     if workers <= 1:
         results_iter = (_worker_chunk((base_seed, tier, c)) for c in chunks)
         for recs in results_iter:
-            _absorb(report, recs)
+            _absorb(report, recs, known)
             if time.time() - t0 > budget:
                 timed_out = True
                 break
@@ -603,13 +605,13 @@ def run_batch(check: Check, tier: str, base_seed: int, script: str) -> int:
                     except Exception as e:  # worker died (watchdog) -> harness error
                         report["harness_errors"].append(f"worker died: {e!r}")
                         recs = []
-                    _absorb(report, recs)
+                    _absorb(report, recs, known)
                 if time.time() - t0 > budget:
                     timed_out = True
                     for p_ in list(pending):
                         if p_.cancel():
                             pending.discard(p_)
-                if not timed_out and len(report["violations"]) < 40:
+                if not timed_out and report.get("unlisted", 0) < 40:
                     for _ in range(len(done_set)):
                         c = next(it, None)
                         if c is not None:
@@ -633,6 +635,16 @@ def run_batch(check: Check, tier: str, base_seed: int, script: str) -> int:
             continue
         seen_classes[key] = 1
         case = rec["case"]
+        if "case_generated" in rec:
+            # the explicit (generator-free) form must fail on its own in a pristine process; if it only failed
+            # in the context it was cut out of, the generated case is the replay
+            try:
+                r0 = in_fork(lambda: check.execute(case), timeout=check.run_timeout_s) if check.isolate else check.execute(case)
+                ok0 = bool(r0.get("violation")) and vclass(r0["violation"]) == vclass(v)
+            except Exception:  # noqa: BLE001
+                ok0 = False
+            if not ok0:
+                case = rec["case_generated"]
         mcase, mv, msteps = minimise(check, case, v, budget_s=float(os.environ.get("VERIF_MIN_S", "45")))
         k2 = match_known(known, mv)
         if k2 is not None:
@@ -688,7 +700,7 @@ def run_batch(check: Check, tier: str, base_seed: int, script: str) -> int:
     return exit_code
 
 
-def _absorb(report, recs):
+def _absorb(report, recs, known=()):
     for rec in recs:
         if "harness_error" in rec:
             report["harness_errors"].append(f"run {rec['idx']} seed {rec['seed']}: {rec['harness_error']}")
@@ -708,6 +720,8 @@ def _absorb(report, recs):
             report.setdefault("tagsets", {}).setdefault(tk, set()).add(tv)
         if rec.get("violation"):
             report["violations"].append(rec)
+            if match_known(known, rec["violation"]) is None:
+                report["unlisted"] = report.get("unlisted", 0) + 1
         if "case" in rec and len(report["samples"]) < 3 and not rec.get("violation"):
             report["samples"].append(rec["case"])
 
